@@ -1152,6 +1152,9 @@ func c08Emptied(cw *c08World, in *c08Inst, path string, subs []*c08Subject) {
 		hs = append(hs, hist{"atomic write+rename", "blank lines", "\n\n"}, hist{"in-place rewrite", "blank lines", "\n"})
 	}
 	for hi, h := range hs {
+		if run.Counter("emptied_list_never_enforced") >= 2 {
+			break // two independent histories are a verdict; no need to wait another 4 s per remaining history
+		}
 		marker := fmt.Sprintf("marker-%d@reload.test", hi)
 		var lines []c08FileLine
 		for _, s := range subs {
@@ -1303,11 +1306,12 @@ func TestVerif_C08(t *testing.T) {
 	run := vfNewRun(t, "C08", "exploration")
 	run.SetRule("global rules: boundary e-mails (exact, case, sub-domain, look-alike prefix/suffix/dot, several '@', empty parts, spaces, wildcard literals, unicode, file members) + seeded grammar sample + boundary group lists + split-cookie sessions " +
 		"x 18 rule sets (exact, leading-dot, *., '*', several domains, e-mails file with case/space/comment/quoted variants, allowed groups, htpasswd) x {cookie, redis} x {cookie session after restart, bearer, htpasswd Basic, htpasswd form session} x {proxied path, auth-only, userinfo}; " +
-		"logins of failing identities; auth-only query constraints (3 kinds x absent/empty/match/no-match/lists/repeats/empty items/look-alikes) x 7 sessions x 2 instances; e-mails file rewritten between requests. " +
+		"logins of failing identities; auth-only query constraints (3 kinds x absent/empty/match/no-match/lists/repeats/empty items/look-alikes) x 7 sessions x 2 instances; e-mails file rewritten between requests, including histories that end with a file without any address (empty, comments only; atomic rename and in place); logins of identities without any e-mail through --provider=adfs. " +
 		"cell = (rule set, e-mail class, source, endpoint, store, history, expected)")
 	run.Assume("e-mail rule semantics as documented: exact '@domain' suffix, '.d'/'*.d' = domain part ends with '.d', '*' = all, case-insensitive; file = exact lower-cased address",
 		"an 'e-mail' without '@' under a sub-domain rule is not judged", "auth-only constraints are judged in the only-if direction against the most permissive documented reading",
-		"being served when the rules pass is C01's clause: counted here, and the run is inconclusive when too little was served")
+		"being served when the rules pass is C01's clause: counted here, and the run is inconclusive when too little was served",
+		"an emptied e-mails file must be enforced within 4 s of the rewrite: not enforced in >= 2 independent histories = violation, in one = inconclusive")
 	w := vfNewWorld(t)
 	defer w.Close()
 	cw := &c08World{run: run, w: w, issuer: map[string]*vfProxy{}}
